@@ -363,3 +363,37 @@ def N7(inp):
     cl['subscribed_iff_in_progress'] = (7 in fso._poller.subs) == (not failed)
     cl['redial_iff_failed_and_retry_time_elapsed'] = Iff(redialled, And(failed, later >= 5.0))
     return Res(cl, nontrivial=failed, obs=lambda: dict(outcome=outcome, state=state1, redialled=redialled))
+
+
+@obligation('N8', props=('C14',), quick=[dict()], stubs=_STUBS + ('the first send() on the freshly connected socket fails with ECONNRESET / EPIPE or succeeds (case split)',),
+            bounds='dialling side; connect completes (writable, SO_ERROR 0); the handshake write fails hard or not; then a tick connectionRetryTime later')
+def N8(inp):
+    """a connection that dies during its own handshake write is not reported as established: the object ends disconnected, the
+    member is not left marked connected, and the peer is re-dialled after connectionRetryTime."""
+    import errno as _errno
+    now = inp.real('now', 0)
+    tr, fso, sm, clk, ev = _transport(inp, '10.0.0.9:5000', ['10.0.0.2:5000'], now, connectionRetryTime=5.0)
+    node = TCPNode('10.0.0.2:5000')
+    _, exc = guard(tr._onTick)
+    conn = tr._connections[node]
+    sock = sm.made[-1]
+    kind = ('ok', 'reset', 'epipe')[inp.choice('first_write', 3)]
+    if kind != 'ok':
+        def bad_send(buf):
+            e = realsocket.error()
+            e.errno = _errno.ECONNRESET if kind == 'reset' else _errno.EPIPE
+            raise e
+        sock.send = bad_send
+    CODEC[0].lengths['10.0.0.9:5000'] = inp.int('Lhs', 1, 100)
+    _, exc2 = guard(getattr(conn, '_TcpConnection__processConnection'), 7, POLL_EVENT_TYPE.WRITE)
+    state1 = conn.state
+    n1 = len(sm.made)
+    clk.now = now + 6
+    _, exc3 = guard(tr._onTick)
+    tc.socket = realsocket
+    failed = kind != 'ok'
+    cl = {'no_exception': exc is None and exc2 is None and exc3 is None}
+    cl['state_after_handshake'] = (state1 == CONNECTION_STATE.DISCONNECTED) if failed else (state1 == CONNECTION_STATE.CONNECTED)
+    cl['connect_and_disconnect_notifications_balance'] = (len(ev.conn) - len(ev.disc)) == (0 if failed else 1)
+    cl['redialled_iff_failed'] = (len(sm.made) > n1) == failed
+    return Res(cl, nontrivial=failed, obs=lambda: dict(kind=kind, state=state1, conn=len(ev.conn), disc=len(ev.disc), socks=len(sm.made)))
